@@ -67,7 +67,8 @@ def sfs(g, sampled, times, prog, via='Demes.SFS', **kw):
 @st.composite
 def native_case(draw):
     big = draw(st.integers(0, 4)) == 0
-    prog = draw(P.program(max_pops=5 if big else 4))
+    # one case in eight grows straight to five populations (ancient samples among them)
+    prog = draw(P.program(max_pops=5, eager=True)) if draw(st.integers(0, 7)) == 0 else draw(P.program(max_pops=5 if big else 4))
     units = draw(st.sampled_from(['generations', 'generations', 'years']))
     # Demes.SFS also takes one selection coefficient and dominance for all demes (relative to the reference size)
     sel = draw(st.sampled_from([None, None, None, [-2.0, 0.5], [1.5, 0.2], [-0.7, 0.8], [-2.0, None]]))
